@@ -106,6 +106,10 @@ def invocations(seed, n, pyver):
     out.append({"kind": "single", "via": "-c", "program": "x = y + 1", "flags": ["--json"], "glued": True})
     out.append({"kind": "single", "via": "-m", "module": "keyword", "flags": [], "glued": True})
     out.append({"kind": "single", "via": "-e", "program": "z = 3", "flags": ["--no-normalize"], "glued": True, "eshape": 1})
+    # stdout that is not UTF-8 (a latin-1 / cp1252 locale or pipe): what is printed must decode, in that encoding, to the same text
+    for enc in ("latin-1", "cp1252"):
+        for fl in ([], ["--json"], ["--json", "--dis-after"], ["--source", "--no-normalize"]):
+            out.append({"kind": "single", "via": "-c", "program": "s = 'caf\u00e9 \u00fc'\ndef f(\u00e9=1):\n    return \u00e9\n", "flags": fl, "ioenc": enc})
     for k, name in enumerate(c16_programs.ODD_FILE_NAMES):
         out.append({"kind": "single", "via": "file", "program": PROGRAMS[k % len(PROGRAMS)], "relname": name, "flags": [[], ["--json"], ["--source", "--dis"]][k % 3]})
     for k, prog in enumerate(c16_programs.TEXT_HAZARDS):
@@ -302,9 +306,17 @@ def run(shard):
             sa, filename = src_argv(via, program, spec.get("module"), spec.get("relname"), spec.get("glued", False))
         argv = sa + flags
         spec["argv_show"] = [a if len(a) < 80 else a[:77] + "..." for a in argv]
-        p = subprocess.run([sys.executable] + OFLAGS + ["-c", launcher] + argv, env=env, stdout=subprocess.PIPE, stderr=subprocess.PIPE, timeout=300,
+        env_ = env
+        if spec.get("ioenc"):
+            env_ = dict(env, PYTHONIOENCODING=spec["ioenc"])
+            H.feature("stdout-encoding:" + spec["ioenc"])
+        p = subprocess.run([sys.executable] + OFLAGS + ["-c", launcher] + argv, env=env_, stdout=subprocess.PIPE, stderr=subprocess.PIPE, timeout=300,
                            cwd=cwd[0])
-        out = p.stdout.decode("utf-8", "surrogateescape")
+        try:
+            out = p.stdout.decode(spec.get("ioenc") or "utf-8", "surrogateescape" if not spec.get("ioenc") else "strict")
+        except UnicodeDecodeError as e:
+            viol(spec, "stdout is not text in the encoding the process was given", str(e)[:200])
+            continue
         H.feature("via:" + via)
         for f in flags:
             H.feature("flag:" + f)
